@@ -3,7 +3,7 @@
    case   = ( cap ( event ... ) )
    event  = ( req tag lang compiler ( arg ... ) ( (var val) ... ) ( (var val) ... ) cwd ( input ... )
                   ( (role path optional) ... ) ppkey ( pre_ok ok cacheable size ( role ... ) ) )
-          | ( delete path ) | ( restart ) | ( idle ) | ( damage ( req ... ) newsize )   (the entry of that request)
+          | ( delete path ) | ( restart ( (var val) ... ) ) [the new server's environment] | ( idle ) | ( probefail <req fields> ) | ( damage ( req ... ) newsize )   (the entry of that request)
    lang   = c | rust          ppkey = ( ) | ( id )
    arg    = ( h B ) | ( p B ) | ( sd B ) | ( cfg B ) | ( ext path digest ) | ( lp B ) | ( out B ) | ( u B )
    result = ( obs ... )       one per event
@@ -67,7 +67,7 @@ Definition dec_req (l : list sx) : option (request * oracle_row) :=
                rq_compiler := get_N comp;
                rq_args := map dec_arg args;
                rq_env := map dec_pair env;
-               rq_env_deps := map dec_pair deps;
+               rq_env_deps := map (fun n => (get_B n, [])) deps;
                rq_cwd := get_B cwd;
                rq_inputs := map get_N inputs;
                rq_outputs := map dec_output outs;
@@ -77,8 +77,9 @@ Definition dec_req (l : list sx) : option (request * oracle_row) :=
   | _ => None
   end.
 
-Inductive ev := EvReq (r : request) (o : oracle_row) | EvDelete (p : bytes) | EvRestart | EvIdle
-  | EvDamage (r : request) (sz : N) | EvBad.
+Inductive ev := EvReq (r : request) (o : oracle_row) | EvDelete (p : bytes)
+  | EvRestart (server_env : list (bytes * bytes)) | EvIdle
+  | EvDamage (r : request) (sz : N) | EvProbeFail (r : request) (o : oracle_row) | EvBad.
 
 Definition dec_event (x : sx) : ev :=
   match x with
@@ -90,7 +91,9 @@ Definition dec_event (x : sx) : ev :=
         | [SL (_ :: rq); sz] => match dec_req rq with Some (r, _) => EvDamage r (get_N sz) | None => EvBad end
         | _ => EvBad
         end
-      else if is_sym "restart" t then EvRestart
+      else if is_sym "probefail" t then match dec_req rest with Some (r, o) => EvProbeFail r o | None => EvBad end
+      else if is_sym "restart" t then
+        match rest with [SL env] => EvRestart (map dec_pair env) | _ => EvRestart [] end
       else if is_sym "idle" t then EvIdle
       else EvBad
   | _ => EvBad
@@ -100,6 +103,7 @@ Fixpoint oracle_table (l : list ev) : list (N * oracle_row) :=
   match l with
   | [] => []
   | EvReq r o :: t => (rq_tag r, o) :: oracle_table t
+  | EvProbeFail r o :: t => (rq_tag r, o) :: oracle_table t
   | _ :: t => oracle_table t
   end.
 
@@ -119,23 +123,32 @@ Definition oracle (tbl : list (N * oracle_row)) (r : request) (_ : N) : cresult 
   | None => {| cr_pre_ok := false; cr_ok := false; cr_cacheable := false; cr_outs := []; cr_size := 0 |}
   end.
 
-Definition to_event (e : ev) : option event :=
+(* the decoded request carries the NAMES of the variables its crate reads (in rq_env_deps, values empty); what the
+   server observes for them depends on the environments: [request_in] *)
+Definition seen (srv : list (bytes * bytes)) (r : request) : request :=
+  request_in srv (map fst (rq_env_deps r)) r.
+
+Definition to_event (srv : list (bytes * bytes)) (e : ev) : option event :=
   match e with
-  | EvReq r _ => Some (EReq r)
+  | EvReq r _ => Some (EReq (seen srv r))
   | EvDelete p => Some (EDelete p)
-  | EvRestart => Some ERestart
+  | EvRestart _ => Some ERestart
   | EvIdle => Some EIdle
-  | EvDamage r sz => Some (EDamage (req_path enc_fp r) sz)
+  | EvDamage r sz => Some (EDamage (req_path enc_fp (seen srv r)) sz)
+  | EvProbeFail r _ => Some (EProbeFail (seen srv r))
   | EvBad => None
   end.
 
-Fixpoint to_events (l : list ev) : option (list event) :=
+(* the environment of the running server changes at every restart *)
+Fixpoint to_events (srv : list (bytes * bytes)) (l : list ev) : option (list event) :=
   match l with
   | [] => Some []
-  | e :: r => match to_event e, to_events r with
-              | Some x, Some xs => Some (x :: xs)
-              | _, _ => None
-              end
+  | e :: r =>
+      let srv' := match e with EvRestart env => env | _ => srv end in
+      match to_event srv' e, to_events srv' r with
+      | Some x, Some xs => Some (x :: xs)
+      | _, _ => None
+      end
   end.
 
 Definition enc_kind (k : kind) : sx :=
@@ -146,6 +159,7 @@ Definition enc_kind (k : kind) : sx :=
   | KCompileFailed => sym "compile_failed"
   | KNotCacheable => sym "not_cacheable"
   | KError => sym "error"
+  | KUnsupported => sym "unsupported"
   | KFatal => sym "fatal"
   end.
 
@@ -160,7 +174,7 @@ Definition enc_obs (x : event * (option outcome * world)) : sx :=
   let n := snat (length (files (w_store w))) in
   let t := SN (files_size (files (w_store w))) in
   match e, o with
-  | EReq r, Some oc =>
+  | EReq r, Some oc | EProbeFail r, Some oc =>
       SL [enc_kind (oc_kind oc); sbool (oc_compiled oc); sbool (oc_pre_ran oc); sbool (oc_stored oc);
           enc_outs w r; n; t]
   | _, _ => SL [sym "ev"; n; t]
@@ -170,7 +184,7 @@ Definition run_c03 (x : sx) : sx :=
   match x with
   | SL [c; SL evs] =>
       let des := map dec_event evs in
-      match to_events des with
+      match to_events [] des with
       | Some h =>
           let tr := trace_events enc_fp (oracle (oracle_table des)) (empty_world (get_N c)) h in
           SL (map enc_obs (combine h tr))
